@@ -5,5 +5,5 @@ git -C /repo apply "$P" || { echo "PATCH DOES NOT APPLY"; exit 9; }
 /verif/check "$ID" --tier "$T" > /tmp/seed_try.out 2>&1; RC=$?
 tail -${LINES_OUT:-8} /tmp/seed_try.out
 echo "exit=$RC"
-git -C /repo checkout -- . 
+git -C /repo checkout -- . ; git -C /repo clean -fdq repid
 git -C /repo status --short | head -3
